@@ -117,6 +117,7 @@ class Check:
         self.by_op: dict[str, int] = {}
         self.samples: list = []
         self.rejects: list[dict] = []       # {id, failing, cls, rec}
+        self.observations: list[dict] = []  # rejected records of behaviour BEYOND the listed property (rec["ext"]): never fatal
         self.model_violations: list[str] = []
         self.notes: list[str] = []
         self.assumptions: list[str] = []
@@ -147,6 +148,9 @@ class Check:
                 from harness.tlc import MachineryError
                 raise MachineryError(f"scenario outside the spec's input domain (harness bug): {json.dumps(rec)[:1500]}")
             cls = rec.get("cls", "")
+            if rec.get("ext"):
+                self.observations.append({"id": rj["id"], "failing": sorted(rj["failing"]), "cls": cls, "rec": rec})
+                continue
             if rj.get("tag"):
                 cls = f"{cls}:{rj['tag']}"      # input class computed by the spec
             self.rejects.append({"id": rj["id"], "failing": sorted(rj["failing"]), "cls": cls, "rec": rec})
@@ -172,6 +176,12 @@ class Check:
                 printed_known.add(hit["key"])
             else:
                 violations.append(rj)
+        seen_obs = set()
+        for o in self.observations:
+            key = (o["cls"], tuple(o["failing"]))
+            if key not in seen_obs and len(seen_obs) < 10:
+                seen_obs.add(key)
+                print(f"OBSERVATION: beyond property {self.pid}: class={o['cls']} clauses={','.join(o['failing'])} id={o['id']}")
         for k in known:
             if k["key"] in printed_known:
                 print(f"KNOWN-FINDING: property={self.pid} {k['key']}: {k['what']}")
@@ -212,6 +222,8 @@ class Check:
             "traces_by_op": self.by_op,
             "models": self.models,
             "rejected_traces": len(self.rejects),
+            "extension_observations": [{"cls": o["cls"], "failing": o["failing"], "id": o["id"]} for o in self.observations[:20]],
+            "extension_records_rejected": len(self.observations),
             "known_findings_printed": known_printed,
             "notes": self.notes,
         }
